@@ -866,13 +866,16 @@ def run_for(ctx, prop):
         if r['nested']:
             ref = analyze_source(ctx.repo, r['module'], r['src'])
             compare(ctx, rule, fa, None, ref_fa=ref, why=r['why'], normalize=r.get('normalize'))
-            ren = sibling_renames(fa, ref)
-            for an, rn in r['nested']:
+            ren = sibling_renames(fa, ref, ctx)
+            from ..refcompare import nested_pairs
+            paired = {rn: an for an, aq, rn, rq in nested_pairs(ctx, fa, ref)}
+            for an0, rn in r['nested']:
+                an = paired.get(rn, an0)
                 if an not in fa.nested or rn not in ref.nested_analyses:
-                    ctx.bad(rule, f'nested:{an}', ctx.where(fa), found=sorted(fa.nested), expected=f'nested function {an}',
-                            key=f'{rule}|nested-missing|{an}')
+                    ctx.bad(rule, f'nested:{an0}', ctx.where(fa), found=sorted(fa.nested), expected=f'nested function {an0}',
+                            key=f'{rule}|nested-missing|{an0}')
                     continue
-                compare(ctx, f'{rule}.{an}', ctx.fa(fa.nested[an]), None, ref_fa=ref.nested_analyses[rn], why=r['why'], extra_rename=ren)
+                compare(ctx, f'{rule}.{rn}', ctx.fa(fa.nested[an]), None, ref_fa=ref.nested_analyses[rn], why=r['why'], extra_rename=ren)
         else:
             compare(ctx, rule, fa, r['src'], module=r['module'], why=r['why'], normalize=r.get('normalize'),
                     ignore=r.get('ignore'), drop_guards=r.get('drop_guards') or ())
